@@ -12,7 +12,7 @@ from fractions import Fraction
 from .. import symx, terms as T
 from ..frontend import AnalysisError
 from ..poly import eval_numeric
-from ..rules import ret_term, find_calls, outcomes, conjuncts, disjuncts
+from ..rules import ret_term, find_calls, outcomes, conjuncts, disjuncts, assume
 from .. import effects, guards
 
 MANIFEST = {
@@ -31,13 +31,15 @@ IERS = [(1972.5, 1), (1973.0, 2), (1974.0, 3), (1975.0, 4), (1976.0, 5), (1977.0
 
 def run(repo, rep, tier):
     rep.decided = ["D1 LEAP_TABLE == IERS list", "D2 lookup/threshold on civil year-month; both directions start 1972-01",
-                   "D3 override symmetric", "D4 Delta-T joints < 1 s and 1972-2018 band 3.5 s"]
+                   "D3 override symmetric", "D4 Delta-T joints < 1 s and 1972-2018 band 3.5 s",
+                   "D5 every keyword combination reaches the right branch (explicit leap_seconds wins over utc=True)"]
     rep.undecided = ["which entry leap_seconds(year, month) selects for each month", "1 ms read-back"]
     rep.assumptions = ["IERS list embedded in the checker", "32.184 s + 10 s from the property text"]
     d1_table(repo, rep)
     d2_taint(repo, rep)
     d3_override(repo, rep)
     d4_deltat(repo, rep, tier)
+    d5_kwpaths(repo, rep)
     fam = [("Epoch", "Epoch." + q) for q in ("leap_seconds", "get_last_leap_second", "_compute_jde", "get_date", "tt2ut")]
     effects.check_functions(repo, rep, fam)
     guards.check_functions(repo, rep, fam)
@@ -260,6 +262,97 @@ def d3_override(repo, rep):
                           "the explicit leap_seconds branch differs from the automatic branch by more than the table value "
                           "(same terms: %s, same guard: %s)" % (ok, same_guard))
     rep.floor("override branch pairs", n, 2)
+
+
+def _kwd(**k):
+    return ("dict", tuple(((("str", a), v)) for a, v in sorted(k.items())))
+
+
+def d5_kwpaths(repo, rep):
+    """R-KWPATH: partial evaluation of Epoch.set / Epoch.get_date for every documented keyword
+    combination; the correction that is finally applied is classified as none / table / override."""
+    import ast
+    rep.rule("R-KWPATH", "for each combination of the utc / leap_seconds / local keywords the applied correction is the table value, "
+                         "the supplied value or nothing, as documented: a supplied leap_seconds always replaces the table value")
+    L = T.sym("NUM_L")
+    TABLE = "Epoch.Epoch.leap_seconds"
+    yes, no = ("bool", True), ("bool", False)
+    variants = [({}, "none"), ({"utc": yes}, "table"), ({"utc": no}, "none"), ({"leap_seconds": L}, "override"),
+                ({"utc": yes, "leap_seconds": L}, "override"), ({"utc": no, "leap_seconds": L}, "override"),
+                ({"leap_seconds": L, "local": no}, "override")]
+
+    def decide(c):
+        if c[0] == "cmp" and c[2] == L and c[3] == T.ZERO:
+            return {"Eq": False, "NotEq": True}.get(c[1])
+        return None
+
+    def classify(t):
+        t = assume(t, decide)
+        tab = bool(find_calls(t, TABLE))
+        ovr = any(x == L for x in T.walk(t))
+        return "mixed" if tab and ovr else "table" if tab else "override" if ovr else "none"
+
+    fn = repo.mod("Epoch").functions["Epoch._compute_jde"]
+    names = [a.arg for a in fn.args.args]
+    defaults = {}
+    for n, d in zip(names[len(names) - len(fn.args.defaults):], fn.args.defaults):
+        try:
+            v = ast.literal_eval(d)
+        except ValueError:
+            continue
+        defaults[n] = ("bool", v) if isinstance(v, bool) else T.num(Fraction(str(v)))
+    n_inst = 0
+    y, m, d = T.sym("NUM_y"), T.sym("NUM_m"), T.sym("NUM_d")
+    for kws, want in variants:
+        label = "{" + ", ".join("%s=%s" % (k, "L" if v == L else v[1]) for k, v in sorted(kws.items())) + "}"
+        # ---- construction
+        site = "Epoch.Epoch.set"
+        got = set()
+        for o in outcomes(repo, "Epoch", "Epoch.set", arg_terms={"args": ("tuple", y, m, d), "kwargs": _kwd(**kws)}):
+            if o.kind == "raise":
+                continue
+            v = o.env.get("self._jde")
+            calls = find_calls(v, "Epoch.Epoch._compute_jde") if v is not None else []
+            if not calls:
+                got.add("?")
+            for c in calls:
+                at = dict(defaults)
+                pos = [x for x in c[2:] if not (x[0] == "kw")]
+                for n, x in zip(names, pos):
+                    at[n] = x
+                at.update({"y": y, "m": m, "d": d})
+                unknown = False
+                for x in c[2:]:
+                    if x[0] == "kw":
+                        if x[1] == "**":
+                            unknown = True
+                        else:
+                            at[x[1]] = x[2]
+                if unknown:
+                    got.add("?")
+                    continue
+                got.add(classify(ret_term(repo, "Epoch", "Epoch._compute_jde", arg_terms=at)))
+        n_inst += 1
+        if got == {want}:
+            rep.ok("R-KWPATH", site + ":" + label, "construction with %s applies: %s" % (label, want))
+        elif "?" in got:
+            rep.inconcl("R-KWPATH", site, "construction with %s: the call of _compute_jde was not resolved" % label)
+        else:
+            rep.violation("R-KWPATH", site, "kw:%s:%s" % (label, "/".join(sorted(got))),
+                          "Epoch(y, m, d, %s) applies the %s correction, the documented behaviour is %s%s"
+                          % (label.strip("{}"), "/".join(sorted(got)), want,
+                             " (an explicit leap_seconds value must replace the table value)" if want == "override" else ""))
+        # ---- read-back
+        site = "Epoch.Epoch.get_date"
+        t = ret_term(repo, "Epoch", "Epoch.get_date", arg_terms={"self": ("epoch", T.sym("J")), "kwargs": _kwd(**kws)})
+        g = classify(t)
+        n_inst += 1
+        if g == want:
+            rep.ok("R-KWPATH", site + ":" + label, "read-back with %s applies: %s" % (label, want))
+        else:
+            rep.violation("R-KWPATH", site, "kw:%s:%s" % (label, g),
+                          "get_date(%s) applies the %s correction, the documented behaviour is %s" % (label.strip("{}"), g, want))
+    rep.floor("keyword combinations evaluated (construction + read-back)", n_inst, 14)
 
 
 def d4_deltat(repo, rep, tier):
